@@ -25,10 +25,10 @@ const (
 )
 
 type Inst struct {
-	Name string
-	Kind Kind
-	Rows uint8 // configured TotalRows of a map forest
-	nohash bool // a full map forest that is given targets-only proofs for its own blocks and their undo
+	Name   string
+	Kind   Kind
+	Rows   uint8 // configured TotalRows of a map forest
+	nohash bool  // a full map forest that is given targets-only proofs for its own blocks and their undo
 
 	S utreexo.Stump
 	P *utreexo.Pollard
@@ -36,8 +36,8 @@ type Inst struct {
 
 	// partial map forest: the slots it was asked to remember and has not
 	// deleted since (harness-side bookkeeping of the requests it made)
-	cached      map[int]bool
-	stumpStack  []utreexo.Stump
+	cached     map[int]bool
+	stumpStack []utreexo.Stump
 }
 
 func (in *Inst) isMap() bool    { return in.Kind == KMapFull || in.Kind == KMapPart }
@@ -107,19 +107,20 @@ type World struct {
 	// Verify: nothing is claimed for it and the behaviour stops there
 	encRejected bool
 	// serial mode (C13): fault enumeration at every restore step
-	serial  bool
-	nserial int
+	serial    bool
+	nserial   int
 	histSoFar []Step
 	// hash reuse (variant runs): the leaf added into slot s carries the hash of the dead leaf of slot reuse[s]
 	reuse map[int]int
-	baStk   []blockArgs // the arguments of the blocks applied so far (for Undo)
+	baStk []blockArgs // the arguments of the blocks applied so far (for Undo)
 	// lifted replay (light-client family): the forest sits on top of liftM*2^liftS live leaves
 	// whose trees are opaque roots (see lift.go); 0 = not lifted
-	liftM uint64
-	highT []string
-	undoEnc int
-	pcached   map[int]bool
-	evlog   func(any)
+	liftM    uint64
+	highT    []string
+	undoEnc  int
+	lockLeft bool // a refused call left a lock behind (partial family): the instance is unusable
+	pcached  map[int]bool
+	evlog    func(any)
 }
 
 func rowsFor(tier string) []uint8 {
